@@ -188,14 +188,28 @@ impl ArcMapCollect for Vec<RetainedMessage> {
 }
 
 // ---- callees of the segment read path that are under contract elsewhere (ASSUMED here) -------------------------------
+// The reading invariant of the disk tier: `rd_wf` of units/read_disk/prelude.rs (log reader, index reader and cached index are
+// views of the same two files; one index record per stored batch carrying its last relative offset AND its file position; file
+// below 4 GiB). It is not expressible in this unit's vocabulary (no index reader, no file positions here), so it is carried BY
+// NAME: unit read_disk defines `disk_tier_wf(s)` as its `rd_wf(s)` and proves the stub below under it; here (and in unit
+// read_partition) it is an uninterpreted hypothesis that the callers pass up to the top-level `requires`.
+pub uninterp spec fn disk_tier_wf(s: &Segment) -> bool;
 impl Segment {
     // Segment::load_messages_from_disk (reading_messages.rs): index lookup + sequential batch read + per-message filter.
     // ASSUMED (verified separately in unit read_log / read_index_log): returns exactly the on-disk messages of this
     // segment with start_offset <= offset <= end_offset, in file order. The real function computes
     // `(start_offset - self.start_offset) as u32`, hence the precondition.
+    // LINKED: unit read_disk proves exactly this contract of the real function (units/read_disk/lemmas.rs, harness
+    // [C02.link.read_segment.load_messages_from_disk]; an edit here has to be mirrored there). The link added the last three
+    // preconditions — the stub had only `start_offset >= self.start_offset`, the real function needs all four.
     #[verifier::external_body]
     pub fn load_messages_from_disk(&self, start_offset: u64, end_offset: u64) -> (r: Result<Vec<RetainedMessage>, IggyError>)
         requires start_offset >= self.start_offset,
+            disk_tier_wf(self),
+            // the relative START offset fits the index's u32 (`(start_offset - self.start_offset) as u32` would truncate)
+            start_offset - self.start_offset <= u32::MAX,
+            // F12 (DESIGN §8): the capacity hint `(start_offset + end_offset + 1) as usize` of load_messages_from_segment_file
+            start_offset + end_offset + 1 <= u64::MAX,
         ensures r is Ok ==> r->Ok_0@ == slice_of(flat(seg_disk(self)), start_offset as int, end_offset as int),
     { unimplemented!() }
     // Segment::load_messages_from_disk_by_timestamp: ASSUMED to return the first `count` on-disk messages of this segment
